@@ -42,3 +42,7 @@ def define(M):
     M("C11", "empty_production_name_kept", "Lib/ufo2ft/postProcessor.py",
       "                if not valid_name or len(valid_name) > self.MAX_GLYPH_NAME_LENGTH:",
       "                if len(valid_name) > self.MAX_GLYPH_NAME_LENGTH:")
+    # C06: regression mutant of the repaired defect (7e74af1)
+    M("C06", "markclass_clash_decided_per_glyph_again", "Lib/ufo2ft/featureWriters/markFeatureWriter.py",
+      "            if self._markClassClashes(\n                currentClasses.get(className), glyphAnchorPairs\n            ):",
+      "            if False:")
